@@ -420,6 +420,9 @@ CHECKS["C15"] = {
             "per-key subset). Oracle vs the fault-free run: run() does not throw; exactly one error tick per throwing evaluation, in that cycle, "
             "with the exception's message; the failing node's ordinary output in non-throwing cycles equals the fault-free output (scheduled "
             "evaluations continue); the independent sibling stream is identical; map: errors under the failing key only, other keys identical. "
+            "Program x: try_except_ around a NON-capturing map_ (3 dictionary scripts x throw masks, one thrower per cycle): the failure surfaces once on "
+            "the try_except_ error output in the throwing cycle, and in every other cycle each key's child ticks exactly as in the fault-free run "
+            "(found and fixed 29d0ffc: a sibling key due in the failing cycle lost its next tick). "
             "non-trivial = at least one throwing evaluation.",
     "bounds": {"quick": "T=5; try_except programs with inputs ticking in cycle 0; map: key 1 all 32 subsets, keys 2-3 8 subsets", "thorough": "all input patterns; map: 32^3 subsets"},
     "min_counters": {"quick": {"nontrivial": 4000, "capture.cases_m": 1000, "capture.cases_2": 200}},
